@@ -42,15 +42,17 @@ Inductive proof :=
 | PSig (sp : sigproof)
 | PEq (pid : nat)
 | PComm (pid : nat) (commitment blinder_proof : K)
+| PVenc (pid : nat) (c1 c2 blinder_proof : K) (has_decryptable_part : bool)
 | POther (pid : nat).
 
 Inductive stmt :=
 | SSig (sid : nat) (pk : pubkey) (requested : list nat)   (* requested = claim indices of the labels to disclose, ascending *)
 | SEq (sid : nat) (refs : list (nat * nat))               (* (signature statement id, claim index) *)
-| SComm (sid : nat) (ref : nat) (claim : nat) (gm gb : K).
+| SComm (sid : nat) (ref : nat) (claim : nat) (gm gb : K)
+| SVenc (sid : nat) (ref : nat) (claim : nat) (gm ek : K) (allow_decryption : bool).
 
 Definition stmt_id (s : stmt) : nat :=
-  match s with SSig i _ _ => i | SEq i _ => i | SComm i _ _ _ _ => i end.
+  match s with SSig i _ _ => i | SEq i _ => i | SComm i _ _ _ _ => i | SVenc i _ _ _ _ _ => i end.
 Definition is_sig (s : stmt) : bool := match s with SSig _ _ _ => true | _ => false end.
 
 (** reported disclosed claims, per signature statement id: (label, scalar of the reported claim).
@@ -234,11 +236,27 @@ Fixpoint pred_pass (S0 S : schema) (P : pres) : option (list K) :=
           end
       | _ => None
       end
+  | SVenc sid ref claim gm ek _ :: t =>
+      match lookup sid (proofs P) with
+      | Some (PVenc _ c1 c2 bp _) =>
+          match sig_hidden S0 P ref with
+          | Some hid =>
+              match lookup claim hid with
+              | Some mp =>
+                  (* r1 = -c*c1 + G*bp,  r2 = -c*c2 + gm*mp + ek*bp  (the byte part's items are not modelled) *)
+                  option_map (app [c1; c2; c1 * (- (challenge P)) + bp; c2 * (- (challenge P)) + gm * mp + ek * bp])
+                             (pred_pass S0 t P)
+              | None => None
+              end
+          | None => None
+          end
+      | _ => None
+      end
   end.
 
 (** every proof carries the id it is stored under *)
 Definition proof_id (p : proof) : nat :=
-  match p with PSig sp => sp_id sp | PEq i => i | PComm i _ _ => i | POther i => i end.
+  match p with PSig sp => sp_id sp | PEq i => i | PComm i _ _ => i | PVenc i _ _ _ _ => i | POther i => i end.
 Definition ids_ok (P : pres) : bool := forallb (fun kp => Nat.eqb (proof_id (snd kp)) (fst kp)) (proofs P).
 
 Definition items (S : schema) (P : pres) : option (list K) :=
@@ -269,6 +287,12 @@ Definition post_one (S : schema) (P : pres) (s : stmt) : bool :=
       end
   | SEq _ refs => eq_verify S P refs
   | SComm _ _ _ _ _ => true
+  | SVenc sid _ _ _ _ allow =>
+      (* a statement that requests scalar decryption must be answered with the decryptable part *)
+      match lookup sid (proofs P) with
+      | Some (PVenc _ _ _ _ has_part) => implb allow has_part
+      | _ => false
+      end
   end.
 
 Definition post (S : schema) (P : pres) : bool := forallb (post_one S P) S.
